@@ -1,8 +1,9 @@
+\* C18 RangeLock with the proposed repairs; sleeping calls may be interrupted (spurious wake-ups) once per thread.
 SPECIFICATION Spec
 CONSTANTS
-  MAXU = 3
-  Offs = {0,1,2,3}
-  Lens = {0,1,2,3,4}
+  MAXU = 2
+  Offs = {0,1,2}
+  Lens = {0,1,2,3}
   Threads = {t1,t2,t3}
   t1 = t1
   t2 = t2
@@ -10,9 +11,10 @@ CONSTANTS
   MaxOps = 2
   Kinds = {"lock","try2","try1"}
   MaxIntr = 1
-  FixEmpty = FALSE
-  FixAdjust = FALSE
+  FixEmpty = TRUE
+  FixAdjust = TRUE
   Broken = "none"
+  OnlyNonEmpty = FALSE
 SYMMETRY Sym
 CHECK_DEADLOCK FALSE
 INVARIANTS TypeOK HeldDisjoint IndexOrdered LookupExact IndexIsHeld WaiterAttached NoStaleWaiter NoStuck
